@@ -48,6 +48,8 @@ FreshId == IF ~UniqueIds THEN <<now, 0>>
            ELSE LET used == {n \in 0..MaxIds : <<now, n>> \in (DiskIds \cup MetaIds \cup {issued[i] : i \in DOMAIN issued})} IN   \* never an id issued before, even if retention has evicted it
                 <<now, CHOOSE n \in 0..MaxIds : n \notin used /\ \A m \in 0..MaxIds : (m < n => m \in used)>>
 
+HasFresh == ~UniqueIds \/ \E n \in 0..MaxIds : <<now, n>> \notin (DiskIds \cup MetaIds \cup {issued[i] : i \in DOMAIN issued})
+
 DiskPut(d, id, st, content) ==      \* set/replace the directory entry of id
     IF \E i \in DOMAIN d : d[i].id = id
     THEN [i \in DOMAIN d |-> IF d[i].id = id THEN [id |-> id, file |-> st, content |-> content] ELSE d[i]]
@@ -56,7 +58,7 @@ DiskDel(d, id) == SelectSeq(d, LAMBDA e : e.id # id)
 DiskGet(id) == LET S == {i \in DOMAIN disk : disk[i].id = id} IN IF S = {} THEN [id |-> id, file |-> "nodir", content |-> Contents] ELSE disk[CHOOSE i \in S : TRUE]
 
 (* --- the checkpoint, step by step (L1 crash model) --- *)
-CkBegin  == /\ Idle /\ Len(issued) < MaxIds
+CkBegin  == /\ Idle /\ Len(issued) < MaxIds /\ HasFresh
             /\ LET id == FreshId IN
                /\ wr' = [id |-> id, step |-> "mkdir"]
                /\ issued' = Append(issued, id)
@@ -79,13 +81,20 @@ Crash    == /\ ~Idle /\ wr' = NoWr /\ store' = [k \in Keys |-> Absent] /\ meta' 
 
 (* --- the checkpoint as one atomic call (generation runs) --- *)
 CheckpointAtomic ==
-    /\ Idle /\ Len(issued) < MaxIds
+    /\ Idle /\ Len(issued) < MaxIds /\ HasFresh
     /\ LET id == FreshId
            d1 == DiskPut(disk, id, "complete", Contents)
            m1 == Append(meta, id) IN
        /\ issued' = Append(issued, id) /\ snap' = Append(snap, [id |-> id, content |-> Contents])
        /\ IF Len(m1) > MaxCp THEN disk' = DiskDel(d1, m1[1]) /\ meta' = Tail(m1) ELSE disk' = d1 /\ meta' = m1
     /\ UNCHANGED <<now, store, wr>> /\ last' = [op |-> "checkpoint", ok |-> TRUE]
+
+(* a checkpoint whose file write fails (disk full / quota): the call returns an error after it has created the directory and  *)
+(* the empty file; nothing else may have changed - in particular no earlier checkpoint has been evicted to make room         *)
+CheckpointFails ==
+    /\ Idle /\ Len(issued) < MaxIds /\ Len(disk) < MaxIds /\ HasFresh
+    /\ disk' = DiskPut(disk, FreshId, "empty", Contents)
+    /\ UNCHANGED <<now, store, meta, snap, issued, wr>> /\ last' = [op |-> "checkpoint_fails", ok |-> FALSE]
 
 (* restore the i-th issued checkpoint *)
 Restore(i) ==
@@ -108,7 +117,7 @@ Common == \/ \E k \in Keys, v \in Vals : Put(k, v) \/ Update(k, v) \/ (\E t \in 
           \/ \E d \in {1, 2} : Tick(d)
           \/ \E i \in 1..MaxIds : Restore(i)
 NextSteps  == nops' = nops + 1 /\ (Common \/ CkBegin \/ CkCreate \/ (\E f \in BOOLEAN : CkWrite(f)) \/ CkMeta \/ CkRetain \/ Crash)
-NextAtomic == nops' = nops + 1 /\ (Common \/ CheckpointAtomic \/ Reopen)
+NextAtomic == nops' = nops + 1 /\ (Common \/ CheckpointAtomic \/ Reopen \/ CheckpointFails)
 
 -----------------------------------------------------------------------------------------
 (* C20 *)
